@@ -28,6 +28,7 @@ def plan(tier, seed):
       {'shard': 'linalg-exh'},
       {'shard': 'stats', 'n': 400 if q else 3000},
   ]
+  specs += [{'shard': 'sievehist-%d' % k, 'k': k} for k in range(4)]
   for i in range(4 if q else 10):
     specs.append({'shard': 'linalg-rand-%d' % i, 'n': 6000 if q else 40000})
   for i in range(12 if q else 16):
@@ -262,6 +263,43 @@ def run_cf(ctx, spec):
     ctx.sample({'helper': 'ExtendedProductTree', 'values': vals[:4], 'len': ln})
   except NameError:
     pass
+
+
+def run_sievehist(ctx, spec):
+  """Sieve call histories from a fresh process: small then large, large then
+  small, repeated (the result must be a function of the argument alone)."""
+  from paranoid_crypto.lib import ntheory_util as ntu
+  r = ctx.rng('sievehist')
+
+  def primes_below(n):
+    return [p for p in range(2, n)
+            if all(p % d for d in range(2, math.isqrt(p) + 1))]
+  seqs = {0: [10, 200, 1000, 5000, 10, 3, 10000, 200],
+          1: [3, 30, 4, 1000, 31, 961, 962, 20000],
+          2: [5000, 10, 200, 5001, 7, 12000],
+          3: [2, 3, 4, 5, 26, 700, 701, 5, 15000]}
+  seq = seqs[spec['k']] + [r.choice([3, 5, 10, 50, 97, 200, 1000, 2500, 7919])
+                           for _ in range(6)]
+  for i, n in enumerate(seq):
+    if not ctx.want('call%d' % i):
+      continue
+    ctx.count('evaluations')
+    ctx.count('sieve_history_calls')
+    ctx.distinct('sievehist', spec['k'], i)
+    got = [int(v) for v in ntu.Sieve(n)]
+    want = primes_below(n)
+    if got != want:
+      bad = sorted(set(got) ^ set(want))[:5]
+      ctx.violation('sieve-wrong-after-earlier-calls',
+                    'Sieve(%d) after calls %r differs from trial division '
+                    '(e.g. %r)' % (n, seq[:i], bad), {'n': n, 'history': seq})
+      break
+  for (a_, b_) in ((355, 113), (10 ** 30 + 7, 2 ** 70 + 1)):
+    first = ntu.ContinuedFraction(a_, b_)
+    ntu.ContinuedFraction(b_, a_ + 1)
+    if ntu.ContinuedFraction(a_, b_) != first:
+      ctx.violation('cf-not-a-function-of-its-arguments', '', None)
+  ctx.sample({'helper': 'Sieve', 'call_history': seq})
 
 
 # ------------------------------------------------------------------ linalg
@@ -689,6 +727,8 @@ def run(ctx, spec):
     run_adic_rand(ctx, spec)
   elif s.startswith('cf-'):
     run_cf(ctx, spec)
+  elif s.startswith('sievehist'):
+    run_sievehist(ctx, spec)
   elif s == 'linalg-exh':
     run_linalg_exh(ctx, spec)
   elif s.startswith('linalg-rand'):
@@ -704,6 +744,7 @@ def finalize(agg, tier):
   c = agg['counters']
   viol, inc = [], []
   for k in ('sqrt_with_roots', 'row_moves_observed', 'vectors_returned',
+            'sieve_history_calls',
             'fullrank_consistent_solved', 'found:uni/in', 'found:bi/in',
             'found:modn/in'):
     if not c.get(k):
